@@ -31,6 +31,8 @@ def run(tier, seed):
         if kind == 'mutator':
             byres.setdefault(statics.RESOURCE.get(q, q), []).append((fn, q, line, statics.held_mutexes(fn, c)))
     for res, items in sorted(byres.items()):
+        if any(not held for fn, q, line, held in items):
+            continue            # a site with no visible lock is GLOBAL-EFFECT.locked's finding, not a second-mutex question
         common = None
         for fn, q, line, held in items:
             ids = {h[0] for h in held}
